@@ -200,6 +200,7 @@ func checkC20(c *Ctx, r *Report) {
 		r.add("C20.a", "mustcall", fi.Key+":returns-Struct-verdict", "ValidateStruct returns exactly validator.Struct(s)", []string{fi.Key}, sites, viol)
 	}
 	ruleSiteAfterOK(c, r, "C20.a", gcm, "cmd.getFullMetadata", load, -1, "source analysis (pipeline construction, package loading) starts only after LoadGleeceConfig returned err == nil")
+	checkCommandExitStatus(c, r, "C20.a")
 	ruleWhoCalls(c, r, "C20.a", func(n string) bool { return n == "core/pipeline.NewGleecePipeline" }, "pipeline.NewGleecePipeline",
 		[]string{"cmd.getFullMetadata", "cmd.getPipeline"}, 1, "within the command layer the pipeline is only built behind the configuration gate")
 	ruleSiteAfterOK(c, r, "C20.a", "cmd.getPipeline", "core/pipeline.NewGleecePipeline", "cmd.loadGleeceConfig", -1, "dump command: the pipeline is built only after the configuration loaded")
@@ -1176,4 +1177,134 @@ func checkGlobSources(c *Ctx, r *Report, clause string, fi *FuncInfo, matched ss
 		o := r.add(clause, "guardedby", "packages-facade:only-glob-matched-files-are-sources", "GetAllSourceFiles yields only files matched by the configured globs (filter at the walk, or at every registration)", []string{gasf, iwg}, sites, viol)
 		o.NonTrivial = true
 	}
+}
+
+// checkCommandExitStatus: a cobra Run callback of package cmd that gets an error from what it
+// runs ends the process with a non-zero status: on the `err != nil` side every way to the
+// callback's return passes os.Exit(k), k != 0. (gleece's logger.Fatal only logs.)
+func checkCommandExitStatus(c *Ctx, r *Report, clause string) {
+	w := c.W
+	errT := types.Universe.Lookup("error").Type()
+	n := 0
+	var sites []string
+	viol := ""
+	for _, fn := range w.SSAFuncs {
+		if fn.Pkg == nil || short(fn.Pkg.Pkg.Path()) != "cmd" || fn.Blocks == nil {
+			continue
+		}
+		sig := fn.Signature
+		isCallback := sig.Params().Len() == 2 && strings.HasSuffix(sig.Params().At(0).Type().String(), "cobra.Command") &&
+			(sig.Results().Len() == 0 || (sig.Results().Len() == 1 && types.Identical(sig.Results().At(0).Type(), errT)))
+		// ... and cmd.Execute, which turns an error of the command tree into the exit status
+		isExecute := fnShort(fn) == "cmd.Execute"
+		if !isCallback && !isExecute {
+			continue
+		}
+		returnsErr := sig.Results().Len() == 1
+		// error values obtained in the callback
+		for _, b := range fn.Blocks {
+			for _, ins := range b.Instrs {
+				call, ok := ins.(*ssa.Call)
+				if !ok {
+					continue
+				}
+				rs := call.Call.Signature().Results()
+				if rs.Len() == 0 || !types.Identical(rs.At(rs.Len()-1).Type(), errT) {
+					continue
+				}
+				if nm := calleeName(call); nm != "" && !isGleeceCallee(nm) && nm != "(*github.com/spf13/cobra.Command).Execute" {
+					continue // printing to the command's output etc.
+				}
+				var errV ssa.Value = call
+				if rs.Len() > 1 {
+					errV = nil
+					if call.Referrers() != nil {
+						for _, rr := range *call.Referrers() {
+							if ex, ok := rr.(*ssa.Extract); ok && ex.Index == rs.Len()-1 {
+								errV = ex
+							}
+						}
+					}
+				}
+				n++
+				sites = append(sites, w.pos(call.Pos()))
+				tested := false
+				if errV != nil && errV.Referrers() != nil {
+					for _, rr := range *errV.Referrers() {
+						bo, ok := rr.(*ssa.BinOp)
+						if !ok || (bo.Op != token.NEQ && bo.Op != token.EQL) || bo.Referrers() == nil {
+							continue
+						}
+						for _, r2 := range *bo.Referrers() {
+							ifi, ok := r2.(*ssa.If)
+							if !ok {
+								continue
+							}
+							tested = true
+							nonNil := ifi.Block().Succs[0]
+							if bo.Op == token.EQL {
+								nonNil = ifi.Block().Succs[1]
+							}
+							// reach a return from nonNil without passing os.Exit(k != 0)?
+							seen := map[*ssa.BasicBlock]bool{}
+							work := []*ssa.BasicBlock{nonNil}
+							for len(work) > 0 {
+								cur := work[len(work)-1]
+								work = work[:len(work)-1]
+								if seen[cur] {
+									continue
+								}
+								seen[cur] = true
+								exits := false
+								for _, in := range cur.Instrs {
+									if cl, ok := in.(ssa.CallInstruction); ok && calleeName(cl) == "os.Exit" && len(cl.Common().Args) == 1 {
+										if k, ok := cl.Common().Args[0].(*ssa.Const); ok && k.Value != nil && k.Int64() != 0 {
+											exits = true
+										}
+									}
+								}
+								if exits {
+									continue
+								}
+								if ret, isRet := cur.Instrs[len(cur.Instrs)-1].(*ssa.Return); isRet {
+									if returnsErr {
+										// a RunE callback: handing the error back makes cobra's Execute fail
+										failing := false
+										for _, ex := range exitsOf(fn) {
+											if ex.Ret == ret && ex.Kind == exitFailure {
+												failing = true
+											}
+										}
+										if len(ret.Results) == 1 && (failing || provablyNonNil(ret.Results[0], cur) || ret.Results[0] == errV) {
+											continue
+										}
+									}
+									viol = fmt.Sprintf("%s: the command callback %s can return after %s failed without os.Exit(non-zero): the failure is logged but the process exits 0, so scripts and CI take a rejected project for a successful generation", w.pos(call.Pos()), fnShort(fn), calleeDesc(call))
+								}
+								work = append(work, cur.Succs...)
+							}
+						}
+					}
+				}
+				if !tested {
+					viol = fmt.Sprintf("%s: the command callback %s does not test the error of %s", w.pos(call.Pos()), fnShort(fn), calleeDesc(call))
+				}
+			}
+		}
+	}
+	if n < 5 {
+		viol = fmt.Sprintf("expected the error-returning calls of the root, the three generate sub-commands' callbacks and Execute, found %d", n)
+	}
+	if len(sites) == 0 {
+		sites = []string{"cmd:0"}
+	}
+	o := r.add(clause, "mustcall", "cmd:failure-exits-non-zero", "a generate sub-command whose work fails ends the process with a non-zero status", []string{"cmd"}, sites, viol)
+	o.NonTrivial = true
+}
+
+func calleeDesc(c *ssa.Call) string {
+	if n := calleeName(c); n != "" {
+		return n
+	}
+	return "the function value it was given"
 }
